@@ -56,21 +56,36 @@ def write_replay(pid: str, v: dict, extra: dict) -> str:
     return "replays/" + p.name
 
 
+def _tree_dirty() -> bool:
+    rc, out = lib.sh(["git", "-C", str(lib.REPO), "status", "--porcelain", "--untracked-files=no"])
+    return rc == 0 and bool(out.strip())
+
+
 def run_property(pid: str, tier: str, seed: int, replay: str | None) -> int:
     t0 = time.time()
     mod = importlib.import_module("props." + pid.lower())
     ctx = lib.Ctx(pid, tier, seed)
 
     # 1. translate (Gen/*.lean from the working tree)
+    proof_problems: list[str] = []
     rc, out = lib.sh(["/venv/bin/python", str(VERIF / "translate" / "gen.py")], env=dict(os.environ, PYTHONPATH=str(lib.REPO)))
     if rc != 0:
-        raise Infra("translator failed: " + out[-2000:])
+        # the source no longer has the shape the translator extracts tables from: the generated tables (and so the
+        # theorems over them) are stale. Not a violation by itself: carry on with the previous tables, let the
+        # correspondence and the oracles look for a failing input, and report the broken tie if none is found.
+        proof_problems.append("translator failed, Gen tables not regenerated from this tree: " + out.strip().split("\n")[-1][:300])
 
     # 2. build: driver first (needed for correspondence), then the property theorems
     rc, out = lib.lake_build(["drv"])
     if rc != 0:
-        raise Infra("driver build failed:\n" + out[-4000:])
-    proof_problems: list[str] = []
+        errs = [l for l in out.split("\n") if l.startswith("error:")]
+        # fall back to the tables of the committed /verif tree so that the correspondence can still run; if the driver
+        # builds with those, it is the regenerated tables (i.e. the source change) that broke it
+        lib.sh(["git", "checkout", "--", "lean/Pycoin/Gen"], cwd=VERIF)
+        rc2, out2 = lib.lake_build(["drv"])
+        if rc2 != 0:
+            raise Infra("driver build failed:\n" + out[-4000:])
+        proof_problems.append("driver no longer builds against the tables regenerated from this tree: " + " | ".join(errs[:3])[:800])
     rc, out = lib.lake_build(["Pycoin.Props." + pid])
     build_ok = rc == 0
     if not build_ok:
